@@ -1,3 +1,5 @@
+#[cfg(mos_verif_threads)]
+use mos_simrt::std_shim as std;
 use crate::config::Config;
 use crate::diagnostic_emitter::MosResult;
 use mos_core::errors::map_io_error;
